@@ -1,6 +1,6 @@
 (* C20 - wire codecs: the property theorems, nothing else.  Each is closed by [exact] of a lemma proved in
    Codec/*.v and followed by Print Assumptions.  Bytes are Z values; payloads are arbitrary lists. *)
-From Icv Require Import Base.Tac Codec.NsModel Codec.NsDecimal Codec.NsProofs Codec.NsStreamProofs
+From Icv Require Import Base.Tac Codec.NsModel Codec.NsDecimal Codec.NsProofs Codec.NsEofProofs Codec.NsStreamProofs
   Codec.JsModel Codec.JsProofs Codec.JsRoundtrip Codec.CodecOracle Codec.CodecOracleProofs Facts.Facts_c20.
 Local Open Scope Z_scope.
 
@@ -50,6 +50,59 @@ Theorem C20_ns_buffered_item_within_limit : forall max buf p r,
 Proof. exact ns_buffered_item_within_limit. Qed.
 Print Assumptions C20_ns_buffered_item_within_limit.
 
+(* ---- the same reader at the END OF THE STREAM: the loop every caller runs
+        for (;;) { srs = ReadStringFromStream(...); if (srs == StatusEof) break; if (srs != StatusNewItem) continue; handle }
+   (ConfigObject::RestoreObjects, ApiListener::ReplayLog, the object/variable list readers).  [fills] is what the successive
+   FillFromStream calls deliver before the stream ends (a fill may be empty) ---- *)
+(* termination: for every input and every chunking the loop makes at most |input| + |fills| + 1 calls, however much
+   fuel it is given, and the last call answers StatusEof or throws - a truncated frame, a missing terminator, trailing
+   garbage never make it run on *)
+Theorem C20_ns_eof_terminates : forall max fills n,
+  (length (concat fills) + length fills + 1 <= n)%nat ->
+  let tr := fst (ns_loop n max ns_ctx_init fills) in
+  ns_trace_end tr <> NsEndFuel /\ (length tr <= length (concat fills) + length fills + 1)%nat.
+Proof. exact ns_eof_terminates. Qed.
+Print Assumptions C20_ns_eof_terminates.
+
+(* the frames handed over are exactly the complete frames in front of the remainder, whatever the remainder is:
+   an incomplete frame (nothing, part of a header, part of a payload, terminator missing) ends the loop with StatusEof
+   and stays in the buffer, a malformed one ends it with the reader's exception *)
+Theorem C20_ns_eof_prefix : forall max ps tail fills,
+  Forall (fun p => ns_len p < 10 ^ 9 /\ (max < 0 \/ ns_len p + 1 <= max)) ps ->
+  concat fills = concat (map ns_write ps) ++ tail ->
+  (ns_parse max tail = NsNeed -> ns_read_all max fills = (ps, NsEndEof, ns_len tail)) /\
+  (forall e, ns_parse max tail = NsErr e -> fst (ns_read_all max fills) = (ps, NsEndErr e)).
+Proof. exact ns_eof_prefix. Qed.
+Print Assumptions C20_ns_eof_prefix.
+
+(* ... and every byte string is of that form: the batch parse leaves an incomplete or a malformed remainder *)
+Theorem C20_ns_eof_remainder_cases : forall max input,
+  let '(fs, rest, e) := ns_drain_full max input in
+  match e with None => ns_parse max rest = NsNeed | Some e => ns_parse max rest = NsErr e \/ (e = 0 /\ ns_parse max rest = NsOob) end.
+Proof. exact ns_remainder_cases. Qed.
+Print Assumptions C20_ns_eof_remainder_cases.
+
+(* what the caller sees of a stream does not depend on how the bytes arrived *)
+Theorem C20_ns_eof_chunking_independent : forall max fills fills',
+  concat fills = concat fills' ->
+  fst (ns_read_all max fills) = fst (ns_read_all max fills') /\
+  (snd (fst (ns_read_all max fills)) = NsEndEof -> ns_read_all max fills = ns_read_all max fills').
+Proof. exact ns_eof_chunking_independent. Qed.
+Print Assumptions C20_ns_eof_chunking_independent.
+
+(* StatusNeedData after the last fill: at most once (the call that finds the buffered remainder incomplete; the next one
+   looks at the stream), never when the reader is about to look at the stream; the call that is told "end of stream"
+   answers StatusEof, and so does every later call *)
+Theorem C20_ns_eof_no_need_after_end : forall max,
+  (forall n c, ns_eof c = false -> (ns_count_need (fst (ns_loop n max c [])) <= (if ns_must c then 0 else 1))%nat) /\
+  (forall c, ns_eof c = false -> ns_must c = true ->
+             ns_ctx_read max c None = (NsStEof, {| ns_buf := ns_buf c; ns_must := true; ns_eof := true |})) /\
+  (forall c fill, ns_eof c = true -> ns_ctx_read max c fill = (NsStEof, c)).
+Proof.
+  intros max. split; [exact (ns_need_after_last_fill max)|]. split; [exact (ns_end_seen_is_eof max)|exact (ns_eof_latched max)].
+Qed.
+Print Assumptions C20_ns_eof_no_need_after_end.
+
 (* ---- netstring, AsioTlsStream variants (JSON-RPC connections) ---- *)
 (* strictness: accepted is exactly what the writer writes (canonical decimal length below 10^9 within the limit,
    ':' payload ','), every other prefix is an error or still incomplete *)
@@ -96,6 +149,12 @@ Theorem C20_oracle_frames_accepts_model : forall max frames chunks,
   ns_oracle_frames max frames (ns_model_feeds max ns_ctx_init chunks) = true.
 Proof. exact ns_oracle_frames_accepts_model. Qed.
 Print Assumptions C20_oracle_frames_accepts_model.
+
+Theorem C20_oracle_eof_accepts_model : forall max fills,
+  let '(items, e, size) := ns_read_all max fills in
+  ns_oracle_eof max (concat fills) items (ns_end_code e) size 1 = true.
+Proof. exact ns_oracle_eof_accepts_model. Qed.
+Print Assumptions C20_oracle_eof_accepts_model.
 
 Theorem C20_oracle_stream_accepts_model : forall max input,
   let '(fs, e, r) := nss_run (S (length input)) max input in nss_oracle max input fs e r 0 = true.
@@ -203,4 +262,15 @@ Example C20_nonvacuous :
     = (ps, {| ns_buf := []; ns_must := true; ns_eof := false |}, None) /\
   ns_read_stream 1 [50; 58; 104; 105; 44] = NsSErr ns_e_max [104; 105; 44] /\
   ns_read_stream (-1) [48; 49; 58; 104; 44] = NsSErr ns_e_lead0 [58; 104; 44].
+Proof. vm_compute. repeat split. Qed.
+
+(* non-vacuity, end of stream: "2:hi," then a frame cut inside its payload, inside its header, before its terminator
+   -> the first frame, StatusEof, the remainder in the buffer; a malformed remainder -> the first frame, exception *)
+Example C20_eof_nonvacuous :
+  ns_read_all (-1) [[50; 58; 104]; [105; 44; 51; 58; 97]] = ([[104; 105]], NsEndEof, 3) /\
+  ns_read_all (-1) [[50; 58; 104; 105; 44; 49]] = ([[104; 105]], NsEndEof, 1) /\
+  ns_read_all (-1) [[50; 58; 104; 105; 44; 49; 58; 97]] = ([[104; 105]], NsEndEof, 3) /\
+  ns_read_all (-1) [[50; 58; 104; 105; 44; 10]] = ([[104; 105]], NsEndEof, 1) /\
+  fst (ns_read_all (-1) [[50; 58; 104; 105; 44]; []; [49; 58; 97; 59]]) = ([[104; 105]], NsEndErr ns_e_nocomma) /\
+  fst (ns_loop 100 (-1) ns_ctx_init [[50; 58; 104; 105; 44; 49]]) = [NsStNew [104; 105]; NsStNeed; NsStEof].
 Proof. vm_compute. repeat split. Qed.
